@@ -125,6 +125,17 @@ theorem wfE_augAssignExpr {t v f : Expr} (op : BinOpK) (ht : wfE t) (hv : wfE v)
   wfE_ifExp (wfE_call (wfE_name _) (wfL_cons ht (wfL_cons (wfE_str _) wfL_nil)))
     (wfE_call (wfE_attribute _ ht) (wfL_cons hv wfL_nil)) hf
 
+theorem wfE_compare1 {a b : Expr} (op : CmpOpK) (ha : wfE a) (hb : wfE b) : wfE (.compare a [op] [b]) := by
+  simp only [wfE, wfL]
+  exact ⟨ha, rfl, by simp, hb, trivial⟩
+
+theorem wfE_hookWrap {f : Expr} (h : wfE f) : wfE (hookWrap f) :=
+  wfE_call (wfE_lambda (wfA_simple _) (wfE_ifExp
+      (wfE_compare1 _ (wfE_call (wfE_name _) (wfL_cons (wfE_name _) wfL_nil))
+        (wfE_call (wfE_name _) (wfL_cons (wfE_lambda wfA_empty (wfE_nat 0)) wfL_nil)))
+      (wfE_call (wfE_name _) (wfL_cons (wfE_name _) wfL_nil)) (wfE_name _)))
+    (wfL_cons h wfL_nil)
+
 theorem wfE_chainRunner : wfE chainRunner :=
   wfE_call (wfE_lambda wfA_empty (wfE_namedExpr _ (wfE_lambda (wfA_simple _) (wfE_name _)))) wfL_nil
 
@@ -166,5 +177,562 @@ theorem wfE_listComp1 {elt : Expr} (x : String) {it : Expr} (he : wfE elt) (hi :
     wfE (.listComp elt [.mk (.name x) it [] false]) := by
   simp only [wfE, wfG, wfL, targetKind]
   exact ⟨he, by simp, trivial, trivial, hi, trivial, trivial⟩
+
+
+/-! ### assignment targets -/
+
+theorem wfElts_head {e : Expr} {es : List Expr} (h : wfElts (e :: es)) : wfElts [e] ∧ wfElts es := by
+  cases e <;> (simp only [wfElts] at h ⊢; exact ⟨⟨h.1, trivial⟩, h.2⟩)
+
+theorem wfElts_single {e : Expr} (h : wfE e) : wfElts [e] := wfElts_cons h wfElts_nil
+
+theorem wfE_of_wfElts_single {e : Expr} (h : wfElts [e]) (hn : ∀ v, e ≠ .starred v) : wfE e := by
+  cases e <;> first | (exact absurd rfl (hn _)) | (simp only [wfElts] at h; exact h.1)
+
+mutual
+  theorem assignAuto_wf (n : Nsp) : ∀ (inP : Bool) (t v : Expr) (st : St) (es : List Expr) (st' : St),
+      assignAuto n inP t v st = .ok (es, st') → wfElts [t] → wfE v → wfL es
+    | inP, .name id, v, st, es, st', h, _, hv => by
+        simp only [assignAuto] at h
+        obtain ⟨r, hr, h⟩ := bind_ok h
+        cases pure_ok h
+        exact wfL_cons (getAssign_wf hr hv) wfL_nil
+    | inP, .attribute o a, v, st, es, st', h, ht, hv => by
+        have ht' := wfE_of_wfElts_single ht (by intro v h; cases h)
+        simp only [wfE] at ht'
+        simp only [assignAuto] at h
+        obtain ⟨o', ho, h⟩ := bind_ok h
+        cases pure_ok h
+        exact wfL_cons (wfE_call (wfE_name _)
+          (wfL_cons (transf_wf n [] o o' ho ht') (wfL_cons (wfE_str a) (wfL_cons hv wfL_nil)))) wfL_nil
+    | inP, .subscript o s, v, st, es, st', h, ht, hv => by
+        have ht' := wfE_of_wfElts_single ht (by intro v h; cases h)
+        simp only [assignAuto] at h
+        obtain ⟨s', hs, h⟩ := bind_ok h
+        obtain ⟨o', ho, h⟩ := bind_ok h
+        cases pure_ok h
+        have := transf_wfSlice ho hs ht'
+        exact wfL_cons (wfE_call (wfE_attribute _ this.1)
+          (wfL_cons (wfE_convertIndex this.2) (wfL_cons hv wfL_nil))) wfL_nil
+    | inP, .tuple ts, v, st, es, st', h, ht, hv => by
+        have ht' := wfE_of_wfElts_single ht (by intro v h; cases h)
+        simp only [wfE] at ht'
+        simp only [assignAuto] at h
+        obtain ⟨⟨rest, st2⟩, hr, h⟩ := bind_ok h
+        cases pure_ok h
+        exact wfL_cons (wfE_namedExpr _ (wfE_call (wfE_name _) (wfL_cons hv wfL_nil)))
+          (assignElts_wf n _ _ _ _ ts _ rest st2 hr ht')
+    | inP, .list ts, v, st, es, st', h, ht, hv => by
+        have ht' := wfE_of_wfElts_single ht (by intro v h; cases h)
+        simp only [wfE] at ht'
+        simp only [assignAuto] at h
+        obtain ⟨⟨rest, st2⟩, hr, h⟩ := bind_ok h
+        cases pure_ok h
+        exact wfL_cons (wfE_namedExpr _ (wfE_call (wfE_name _) (wfL_cons hv wfL_nil)))
+          (assignElts_wf n _ _ _ _ ts _ rest st2 hr ht')
+    | inP, .starred sub, v, st, es, st', h, ht, hv => by
+        simp only [wfElts] at ht
+        simp only [assignAuto] at h
+        split at h
+        · exact assignAuto_wf n false sub v st es st' h (wfElts_single ht.1) hv
+        · cases h
+    | inP, .const _, v, st, es, st', h, _, _ => by simp only [assignAuto] at h; cases h
+    | inP, .joinedStr _, v, st, es, st', h, _, _ => by simp only [assignAuto] at h; cases h
+    | inP, .formattedValue .., v, st, es, st', h, _, _ => by simp only [assignAuto] at h; cases h
+    | inP, .set _, v, st, es, st', h, _, _ => by simp only [assignAuto] at h; cases h
+    | inP, .dict _, v, st, es, st', h, _, _ => by simp only [assignAuto] at h; cases h
+    | inP, .slice .., v, st, es, st', h, _, _ => by simp only [assignAuto] at h; cases h
+    | inP, .call .., v, st, es, st', h, _, _ => by simp only [assignAuto] at h; cases h
+    | inP, .binOp .., v, st, es, st', h, _, _ => by simp only [assignAuto] at h; cases h
+    | inP, .boolOp .., v, st, es, st', h, _, _ => by simp only [assignAuto] at h; cases h
+    | inP, .unaryOp .., v, st, es, st', h, _, _ => by simp only [assignAuto] at h; cases h
+    | inP, .compare .., v, st, es, st', h, _, _ => by simp only [assignAuto] at h; cases h
+    | inP, .ifExp .., v, st, es, st', h, _, _ => by simp only [assignAuto] at h; cases h
+    | inP, .lambda .., v, st, es, st', h, _, _ => by simp only [assignAuto] at h; cases h
+    | inP, .namedExpr .., v, st, es, st', h, _, _ => by simp only [assignAuto] at h; cases h
+    | inP, .listComp .., v, st, es, st', h, _, _ => by simp only [assignAuto] at h; cases h
+    | inP, .setComp .., v, st, es, st', h, _, _ => by simp only [assignAuto] at h; cases h
+    | inP, .dictComp .., v, st, es, st', h, _, _ => by simp only [assignAuto] at h; cases h
+    | inP, .generatorExp .., v, st, es, st', h, _, _ => by simp only [assignAuto] at h; cases h
+    | inP, .yield_ _, v, st, es, st', h, _, _ => by simp only [assignAuto] at h; cases h
+    | inP, .yieldFrom _, v, st, es, st', h, _, _ => by simp only [assignAuto] at h; cases h
+    | inP, .await _, v, st, es, st', h, _, _ => by simp only [assignAuto] at h; cases h
+
+  theorem assignElts_wf (n : Nsp) : ∀ (tmp : String) (len index : Nat) (hs : Bool) (ts : List Expr) (st : St)
+      (es : List Expr) (st' : St), assignElts n tmp len index hs ts st = .ok (es, st') → wfElts ts → wfL es
+    | tmp, len, index, hs, [], st, es, st', h, _ => by
+        simp only [assignElts] at h; cases h; exact wfL_nil
+    | tmp, len, index, hs, t :: ts, st, es, st', h, ht => by
+        have hh := wfElts_head ht
+        simp only [assignElts] at h
+        split at h
+        · cases h
+        · obtain ⟨⟨a, st1⟩, ha, h⟩ := bind_ok h
+          obtain ⟨⟨b, st2⟩, hb, h⟩ := bind_ok h
+          cases pure_ok h
+          refine wfL_append (assignAuto_wf n true t _ st a st1 ha hh.1 ?_) (assignElts_wf n tmp len _ _ ts st1 b st2 hb hh.2)
+          split
+          · refine wfE_call (wfE_name _) (wfL_cons ?_ wfL_nil)
+            have hup : wfO (if (index : Int) - (len : Int) + 1 = 0 then none else some (intConstant ((index : Int) - (len : Int) + 1))) := by
+              split
+              · simp only [wfO]
+              · simp only [wfO]; exact wfE_intConstant _
+            simp only [wfE, wfSlice]
+            exact ⟨trivial, by simp only [wfO]; exact wfE_nat index, hup, by simp only [wfO]⟩
+          · exact wfE_subscript (wfE_name _) (wfE_intConstant _) (intConstant_not_tuple _)
+end
+
+theorem assignTargets_wf (n : Nsp) (v : Expr) (hv : wfE v) : ∀ (ts : List Expr) (st : St) (es : List Expr) (st' : St),
+    assignTargets n v ts st = .ok (es, st') → wfL ts → wfL es
+  | [], st, es, st', h, _ => by simp only [assignTargets] at h; cases h; exact wfL_nil
+  | t :: ts, st, es, st', h, ht => by
+      simp only [wfL] at ht
+      simp only [assignTargets] at h
+      obtain ⟨⟨a, st1⟩, ha, h⟩ := bind_ok h
+      obtain ⟨⟨b, st2⟩, hb, h⟩ := bind_ok h
+      cases pure_ok h
+      exact wfL_append (assignAuto_wf n false t v st a st1 ha (wfElts_single ht.1) hv)
+        (assignTargets_wf n v hv ts st1 b st2 hb ht.2)
+
+
+/-! ### simple statements -/
+
+theorem lowerAugAssign_wf (n : Nsp) (tg : Expr) (op : BinOpK) (v : Expr) (st : St) (es : List Expr) (st' : St)
+    (h : lowerAugAssign n tg op v st = .ok (es, st')) (ht : wfE tg) (hv : wfE v) : wfL es := by
+  unfold lowerAugAssign at h
+  simp only [] at h
+  obtain ⟨v', hv', h⟩ := bind_ok h
+  have hwv := transf_wf n [] v v' hv' hv
+  cases tg with
+  | name id =>
+    simp only [] at h
+    obtain ⟨t, ht', h⟩ := bind_ok h
+    obtain ⟨r, hr, h⟩ := bind_ok h
+    cases pure_ok h
+    have hwt := getLoad_wf ht'
+    exact wfL_cons (getAssign_wf hr (wfE_augAssignExpr op hwt hwv (wfE_binOp op hwt hwv))) wfL_nil
+  | subscript tv ts =>
+    simp only [] at h
+    obtain ⟨parent, hp, h⟩ := bind_ok h
+    obtain ⟨sl, hsl, h⟩ := bind_ok h
+    cases pure_ok h
+    have := transf_wfSlice hp hsl ht
+    have hbody := wfE_augAssignExpr op (wfE_name (st.fresh "augass").1) hwv
+      (wfE_namedExpr (st.fresh "augass").1 (wfE_binOp op (wfE_name (st.fresh "augass").1) hwv))
+    have h3 : wfE (Expr.subscript (.name (((st.fresh "augass").2.fresh "sllice").2.fresh "augobj").1)
+        (.name ((st.fresh "augass").2.fresh "sllice").1)) :=
+      wfE_subscript (wfE_name _) (wfE_name _) (by intro es he; cases he)
+    have h4 := wfE_call (wfE_attribute "__setitem__" (wfE_name (((st.fresh "augass").2.fresh "sllice").2.fresh "augobj").1))
+      (wfL_cons (wfE_name ((st.fresh "augass").2.fresh "sllice").1) (wfL_cons hbody wfL_nil))
+    exact wfL_cons (wfE_namedExpr _ this.1) (wfL_cons (wfE_namedExpr _ (wfE_convertIndex this.2))
+      (wfL_cons (wfE_namedExpr _ h3) (wfL_cons h4 wfL_nil)))
+  | «attribute» tv a =>
+    simp only [wfE] at ht
+    simp only [] at h
+    obtain ⟨parent, hp, h⟩ := bind_ok h
+    cases pure_ok h
+    have hbody := wfE_augAssignExpr op (wfE_name (st.fresh "augass").1) hwv
+      (wfE_namedExpr (st.fresh "augass").1 (wfE_binOp op (wfE_name (st.fresh "augass").1) hwv))
+    have h3 := wfE_call (wfE_name "setattr") (wfL_cons (wfE_name ((st.fresh "augass").2.fresh "augobj").1)
+      (wfL_cons (wfE_str a) (wfL_cons hbody wfL_nil)))
+    exact wfL_cons (wfE_namedExpr _ (transf_wf n [] tv parent hp ht))
+      (wfL_cons (wfE_namedExpr _ (wfE_attribute _ (wfE_name _))) (wfL_cons h3 wfL_nil))
+  | _ => simp only [] at h; cases h
+
+theorem lowerImport_wf (n : Nsp) : ∀ (as : List Alias) (es : List Expr), lowerImport n as = .ok es → wfL es
+  | [], es, h => by simp only [lowerImport] at h; cases h; exact wfL_nil
+  | a :: as, es, h => by
+      simp only [lowerImport] at h
+      split at h
+      · obtain ⟨e, he, h⟩ := bind_ok h
+        obtain ⟨rest, hr, h⟩ := bind_ok h
+        cases pure_ok h
+        exact wfL_cons (getAssign_wf he (wfE_call (wfE_name _) (wfL_cons (wfE_str _) wfL_nil))) (lowerImport_wf n as rest hr)
+      · obtain ⟨e, he, h⟩ := bind_ok h
+        obtain ⟨rest, hr, h⟩ := bind_ok h
+        cases pure_ok h
+        exact wfL_cons (getAssign_wf he (wfE_call (wfE_attribute _ (wfE_name _)) (wfL_cons (wfE_str _) wfL_nil)))
+          (lowerImport_wf n as rest hr)
+
+theorem lowerImportFromNames_wf (n : Nsp) (tmp : String) : ∀ (as : List Alias) (es : List Expr),
+    lowerImportFromNames n tmp as = .ok es → wfL es
+  | [], es, h => by simp only [lowerImportFromNames] at h; cases h; exact wfL_nil
+  | a :: as, es, h => by
+      simp only [lowerImportFromNames] at h
+      split at h
+      · cases h
+      · obtain ⟨e, he, h⟩ := bind_ok h
+        obtain ⟨rest, hr, h⟩ := bind_ok h
+        cases pure_ok h
+        exact wfL_cons (getAssign_wf he (wfE_attribute _ (wfE_name _))) (lowerImportFromNames_wf n tmp as rest hr)
+
+theorem wfL_map_str {α : Type} (f : α → String) : ∀ (l : List α), wfL (l.map fun a => Expr.str (f a))
+  | [] => wfL_nil
+  | a :: l => wfL_cons (wfE_str _) (wfL_map_str f l)
+
+theorem lowerImportFrom_wf (n : Nsp) (m : Option String) (names : List Alias) (level : Nat) (st : St)
+    (es : List Expr) (st' : St) (h : lowerImportFrom n m names level st = .ok (es, st')) : wfL es := by
+  unfold lowerImportFrom at h
+  simp only [] at h
+  obtain ⟨rest, hr, h⟩ := bind_ok h
+  cases pure_ok h
+  refine wfL_cons (wfE_namedExpr _ (wfE_call (wfE_name _) ?_)) (lowerImportFromNames_wf n _ names rest hr)
+  exact wfL_cons (wfE_str _) (wfL_cons (wfE_call (wfE_name _) wfL_nil) (wfL_cons (wfE_call (wfE_name _) wfL_nil)
+    (wfL_cons (wfE_list (wfL_map_str (fun a : Alias => a.name) names)) (wfL_cons (wfE_nat level) wfL_nil))))
+
+theorem applyDecorators_wf (n : Nsp) : ∀ (ds : List Expr) (body r : Expr), applyDecorators n ds body = .ok r →
+    wfL ds → wfE body → wfE r
+  | [], body, r, h, _, hb => by simp only [applyDecorators] at h; cases h; exact hb
+  | d :: ds, body, r, h, hd, hb => by
+      simp only [wfL] at hd
+      simp only [applyDecorators] at h
+      obtain ⟨inner, hi, h⟩ := bind_ok h
+      obtain ⟨d', hd', h⟩ := bind_ok h
+      cases pure_ok h
+      exact wfE_call (transf_wf n [] d d' hd' hd.1) (wfL_cons (applyDecorators_wf n ds body inner hi hd.2 hb) wfL_nil)
+
+theorem classKeywords_wf (n : Nsp) : ∀ (ks : List Keyword) (m : Option Expr) (rest : List Keyword),
+    classKeywords n ks = .ok (m, rest) → wfKws ks → wfO m ∧ wfKws rest
+  | [], m, rest, h, _ => by
+      simp only [classKeywords] at h; cases h
+      exact ⟨by simp only [wfO], wfKws_nil⟩
+  | .mk a v :: ks, m, rest, h, hk => by
+      simp only [wfKws] at hk
+      simp only [classKeywords] at h
+      obtain ⟨v', hv, h⟩ := bind_ok h
+      obtain ⟨⟨m0, rest0⟩, hr, h⟩ := bind_ok h
+      have ih := classKeywords_wf n ks m0 rest0 hr hk.2
+      have hv' := transf_wf n [] v v' hv hk.1
+      simp only [] at h
+      split at h
+      · cases pure_ok h
+        refine ⟨?_, ih.2⟩
+        simp only [wfO]
+        cases m0 with
+        | none => exact hv'
+        | some e => have := ih.1; simp only [wfO] at this; exact this
+      · cases pure_ok h
+        refine ⟨ih.1, ?_⟩
+        simp only [wfKws]
+        exact ⟨hv', ih.2⟩
+
+theorem lowerFunctionHead_wf (n : Nsp) (a a' : Arguments) (h : lowerFunctionHead n a = .ok a') (hw : wfA a) : wfA a' := by
+  obtain ⟨po, as, va, ko, kd, kw, ds⟩ := a
+  simp only [wfA] at hw
+  simp only [lowerFunctionHead] at h
+  obtain ⟨ds', hds, h⟩ := bind_ok h
+  obtain ⟨kd', hkd, h⟩ := bind_ok h
+  cases pure_ok h
+  simp only [wfA]
+  refine ⟨?_, ?_, transfList_wfL n [] ds ds' hds hw.2.2.1, transfOptList_wf n [] kd kd' hkd hw.2.2.2⟩
+  · rw [transfList_len n [] ds ds' hds]; exact hw.1
+  · rw [transfOptList_len n [] kd kd' hkd]; exact hw.2.1
+
+theorem wfItems_params : ∀ (ps : List String), wfItems (ps.map fun p => DictItem.mk (some (Expr.str p)) (.name p))
+  | [] => by simp only [List.map, wfItems]
+  | p :: ps => by
+      simp only [List.map, wfItems]
+      exact ⟨wfE_str p, wfE_name p, wfItems_params ps⟩
+
+theorem wfL_map_of {α : Type} (f : α → Expr) (hf : ∀ a, wfE (f a)) : ∀ (l : List α), wfL (l.map f)
+  | [] => wfL_nil
+  | a :: l => wfL_cons (hf a) (wfL_map_of f hf l)
+
+theorem wfL_ite (c : Prop) [Decidable c] {a b : List Expr} (ha : wfL a) (hb : wfL b) : wfL (if c then a else b) := by
+  split <;> assumption
+
+
+/-! ### statements and blocks -/
+
+theorem ite_ok {α : Type} {c : Prop} [Decidable c] {a b : Except Err α} {r : α}
+    (h : (if c then a else b) = .ok r) : a = .ok r ∨ b = .ok r := by
+  split at h
+  · exact Or.inl h
+  · exact Or.inr h
+
+theorem wfE_listCompG {elt t it : Expr} (he : wfE elt) (hk : targetKind t = true) (ht : wfE t) (hi : wfE it) :
+    wfE (.listComp elt [.mk t it [] false]) := by
+  simp only [wfE, wfG, wfL]
+  exact ⟨he, by simp, hk, ht, hi, trivial, trivial⟩
+
+theorem wfE_ite (c : Prop) [Decidable c] {a b : Expr} (ha : wfE a) (hb : wfE b) : wfE (if c then a else b) := by
+  split <;> assumption
+
+theorem wfE_getD' {o : Option Expr} {d : Expr} (h : wfO o) (hd : wfE d) : wfE (o.getD d) := by
+  cases o with
+  | none => exact hd
+  | some e => simp only [wfO] at h; exact h
+
+theorem wfE_guard (cfg : Cfg) (flag : String) {rest : List Expr} (h : wfL rest) :
+    wfE (.ifExp (Expr.not_ (.name flag)) (wrapExprs cfg rest) Expr.ellipsis) :=
+  wfE_ifExp (wfE_not (wfE_name _)) (wfE_wrapExprs cfg h) wfE_ellipsis
+
+mutual
+  theorem lowerStmt_wf : ∀ (s : Stmt) (cx : Ctx) (st : St) (es : List Expr) (st' : St),
+      lowerStmt cx s st = .ok (es, st') → wfS s → wfL es
+    | .expr v, cx, st, es, st', h, hw => by
+        simp only [wfS] at hw
+        simp only [lowerStmt] at h
+        obtain ⟨v', hv, h⟩ := bind_ok h
+        cases pure_ok h
+        exact wfL_cons (transf_wf cx.nsp [] v v' hv hw) wfL_nil
+    | .pass_, cx, st, es, st', h, _ => by
+        simp only [lowerStmt] at h; cases h; exact wfL_cons wfE_ellipsis wfL_nil
+    | .global_ _, cx, st, es, st', h, _ => by simp only [lowerStmt] at h; cases h; exact wfL_nil
+    | .nonlocal_ _, cx, st, es, st', h, _ => by simp only [lowerStmt] at h; cases h; exact wfL_nil
+    | .break_, cx, st, es, st', h, _ => by
+        simp only [lowerStmt] at h
+        split at h
+        · cases h
+        · cases h
+          exact wfL_cons (wfE_list (wfL_append (wfL_cons (wfE_brkSet _) wfL_nil)
+            (wfL_ite _ (wfL_cons (wfE_setFlag _ _) wfL_nil) wfL_nil))) wfL_nil
+    | .continue_, cx, st, es, st', h, _ => by
+        simp only [lowerStmt] at h
+        split at h
+        · cases h
+        · cases h
+          exact wfL_cons (wfE_list (wfL_ite _ (wfL_cons (wfE_setFlag _ _) wfL_nil) wfL_nil)) wfL_nil
+    | .return_ v, cx, st, es, st', h, hw => by
+        simp only [wfS] at hw
+        simp only [lowerStmt] at h
+        split at h
+        · cases h
+        · have tail : ∀ rv, wfL rv → wfL [Expr.list (rv ++ cx.loops.map LoopCtx.brkSet ++
+              ((cx.loops.reverse.filter (·.used)).map fun l => setFlag l.intr true) ++
+              (if cx.fnUsed then [setFlag cx.nsp.retName true] else []))] := by
+            intro rv hrvw
+            refine wfL_cons (wfE_list ?_) wfL_nil
+            exact wfL_append (wfL_append (wfL_append hrvw (wfL_map_of _ wfE_brkSet _))
+              (wfL_map_of _ (fun l => wfE_setFlag _ _) _)) (wfL_ite _ (wfL_cons (wfE_setFlag _ _) wfL_nil) wfL_nil)
+          cases v with
+          | none =>
+            simp only [] at h
+            obtain ⟨rv, hrv, h⟩ := bind_ok h
+            cases pure_ok hrv
+            cases pure_ok h
+            exact tail [] wfL_nil
+          | some e =>
+            simp only [wfO] at hw
+            simp only [] at h
+            obtain ⟨e', he, h⟩ := bind_ok h
+            obtain ⟨rv, hrv, h⟩ := bind_ok h
+            cases pure_ok hrv
+            cases pure_ok h
+            exact tail _ (wfL_cons (wfE_namedExpr _ (transf_wf cx.nsp [] e e' he hw)) wfL_nil)
+    | .if_ t b e, cx, st, es, st', h, hw => by
+        simp only [wfS] at hw
+        simp only [lowerStmt] at h
+        obtain ⟨⟨b', st1⟩, hb, h⟩ := bind_ok h
+        obtain ⟨⟨o', st2⟩, ho, h⟩ := bind_ok h
+        obtain ⟨t', ht, h⟩ := bind_ok h
+        have hbw := wfE_wrapExprs cx.cfg (lowerBlock_wf b cx st b' st1 hb hw.2.1)
+        have how := wfE_wrapExprs cx.cfg (lowerBlock_wf e cx st1 o' st2 ho hw.2.2)
+        have htw := transf_wf cx.nsp [] t t' ht hw.1
+        simp only [] at h
+        split at h
+        · split at h
+          · cases pure_ok h
+            exact wfL_cons (wfE_boolOp2 _ htw hbw) wfL_nil
+          · cases pure_ok h
+            exact wfL_cons (wfE_boolOp2 _ (wfE_boolOp2 _ htw (wfE_boolOp2 _ hbw (wfE_nat 1))) how) wfL_nil
+        · cases pure_ok h
+          exact wfL_cons (wfE_ifExp htw hbw how) wfL_nil
+    | .while_ t b e, cx, st, es, st', h, hw => by
+        simp only [wfS] at hw
+        simp only [lowerStmt] at h
+        obtain ⟨⟨b', st1⟩, hb, h⟩ := bind_ok h
+        obtain ⟨⟨o', st2⟩, ho, h⟩ := bind_ok h
+        obtain ⟨t', ht, h⟩ := bind_ok h
+        cases pure_ok h
+        have hbw := lowerBlock_wf b _ _ b' st1 hb hw.2.1
+        have how := lowerBlock_wf e cx _ o' st2 ho hw.2.2
+        have htw := transf_wf cx.nsp [] t t' ht hw.1
+        refine wfL_append (wfL_append (wfL_ite _ (wfL_cons (wfE_setFlag _ _) wfL_nil) wfL_nil) (wfL_cons ?_ wfL_nil))
+          (wfL_ite _ wfL_nil (wfL_cons ?_ wfL_nil))
+        · exact wfE_listComp1 _ (wfE_wrapExprs _ (wfL_append (wfL_ite _ (wfL_cons (wfE_setFlag _ _) wfL_nil) wfL_nil) hbw))
+            (wfE_takewhileIter (wfE_ite _ (wfE_boolOp2 _ (wfE_not (wfE_name _)) htw) htw))
+        · exact wfE_ite _ (wfE_guard _ _ how) (wfE_wrapExprs _ how)
+    | .for_ tg it b e, cx, st, es, st', h, hw => by
+        simp only [wfS] at hw
+        simp only [lowerStmt] at h
+        obtain ⟨⟨b', st1⟩, hb, h⟩ := bind_ok h
+        obtain ⟨⟨o', st2⟩, ho, h⟩ := bind_ok h
+        obtain ⟨⟨asg, st3⟩, ha, h⟩ := bind_ok h
+        obtain ⟨itr, hi, h⟩ := bind_ok h
+        have hbw := lowerBlock_wf b _ _ b' st1 hb hw.2.2.1
+        have how := lowerBlock_wf e cx _ o' st2 ho hw.2.2.2
+        have hasg := assignAuto_wf cx.nsp false tg _ _ asg st3 ha (wfElts_single hw.1) (wfE_name _)
+        have hiw := transf_wf cx.nsp [] it itr hi hw.2.1
+        rcases ite_ok h with h | h
+        · cases pure_ok h
+          exact wfL_cons (wfE_listComp1 _ (wfE_wrapExprs _ (wfL_append hasg hbw)) hiw) wfL_nil
+        · cases pure_ok h
+          refine wfL_append (wfL_append (wfL_ite _ (wfL_cons (wfE_namedExpr _ (wfE_call (wfE_name _) (wfL_cons hiw wfL_nil))) wfL_nil) wfL_nil)
+            (wfL_cons ?_ wfL_nil)) (wfL_ite _ wfL_nil (wfL_cons ?_ wfL_nil))
+          · exact wfE_listComp1 _ (wfE_wrapExprs _ (wfL_append (wfL_ite _ (wfL_cons (wfE_setFlag _ _) wfL_nil) wfL_nil)
+              (wfL_append hasg hbw))) (wfE_ite _ (wfE_name _) hiw)
+          · exact wfE_ite _ (wfE_ifExp (wfE_not (wfE_attribute _ (wfE_name _))) (wfE_wrapExprs _ how) wfE_ellipsis)
+              (wfE_wrapExprs _ how)
+    | .assign ts v, cx, st, es, st', h, hw => by
+        simp only [wfS] at hw
+        simp only [lowerStmt] at h
+        obtain ⟨v', hv, h⟩ := bind_ok h
+        have hvw := transf_wf cx.nsp [] v v' hv hw.2
+        rcases ite_ok h with h | h
+        · obtain ⟨⟨r, st1⟩, hr, h⟩ := bind_ok h
+          cases pure_ok h
+          exact wfL_cons (wfE_namedExpr _ hvw) (assignTargets_wf cx.nsp _ (wfE_name _) ts _ r st1 hr hw.1)
+        · exact assignTargets_wf cx.nsp v' hvw ts st es st' h hw.1
+    | .annAssign tg ann v, cx, st, es, st', h, hw => by
+        simp only [wfS] at hw
+        cases v with
+        | none => simp only [lowerStmt] at h; cases h; exact wfL_nil
+        | some v =>
+          simp only [wfO] at hw
+          simp only [lowerStmt] at h
+          obtain ⟨v', hv, h⟩ := bind_ok h
+          have hvw := transf_wf cx.nsp [] v v' hv hw.2
+          rcases ite_ok h with h | h
+          · obtain ⟨⟨r, st1⟩, hr, h⟩ := bind_ok h
+            cases pure_ok h
+            exact wfL_cons (wfE_namedExpr _ hvw) (assignAuto_wf cx.nsp false tg _ _ r st1 hr (wfElts_single hw.1) (wfE_name _))
+          · exact assignAuto_wf cx.nsp false tg v' st es st' h (wfElts_single hw.1) hvw
+    | .augAssign tg op v, cx, st, es, st', h, hw => by
+        simp only [wfS] at hw
+        simp only [lowerStmt] at h
+        exact lowerAugAssign_wf cx.nsp tg op v st es st' h hw.1 hw.2
+    | .import_ names, cx, st, es, st', h, _ => by
+        simp only [lowerStmt] at h
+        obtain ⟨r, hr, h⟩ := bind_ok h
+        cases pure_ok h
+        exact lowerImport_wf cx.nsp names _ hr
+    | .importFrom m names level, cx, st, es, st', h, _ => by
+        simp only [lowerStmt] at h
+        exact lowerImportFrom_wf cx.nsp m names level st es st' h
+    | .functionDef name args body decos lineno, cx, st, es, st', h, hw => by
+        simp only [wfS] at hw
+        simp only [lowerStmt] at h
+        obtain ⟨inner, hin, h⟩ := bind_ok h
+        obtain ⟨args', ha, h⟩ := bind_ok h
+        obtain ⟨⟨b', st1⟩, hb, h⟩ := bind_ok h
+        obtain ⟨lam, hl, h⟩ := bind_ok h
+        obtain ⟨r, hr, h⟩ := bind_ok h
+        cases pure_ok h
+        have hbw := lowerBlock_wf body _ _ b' st1 hb hw.2.1
+        have haw := lowerFunctionHead_wf cx.nsp args args' ha hw.1
+        refine wfL_cons (getAssign_wf hr (wfE_ite _ (wfE_hookWrap ?_) ?_)) wfL_nil
+        all_goals
+          refine applyDecorators_wf cx.nsp decos _ lam hl hw.2.2 (wfE_lambda haw (wfE_subscript (wfE_list ?_) wfE_neg1 (by intro es he; cases he)))
+          refine wfL_append (wfL_append ?_ ?_) (wfL_cons (wfE_name _) wfL_nil)
+          · exact wfL_append (wfL_append (wfL_append (wfL_cons (wfE_namedExpr _ wfE_none) wfL_nil)
+              (wfL_ite _ (wfL_cons (wfE_name _) wfL_nil) wfL_nil)) (wfL_ite _ (wfL_cons (wfE_setFlag _ _) wfL_nil) wfL_nil))
+              (wfL_ite _ wfL_nil (wfL_cons (wfE_namedExpr _ (by simp only [wfE]; exact wfItems_params _)) wfL_nil))
+          · cases cx.cfg.wrapper with
+            | list => exact hbw
+            | chainCall => exact wfL_cons (wfE_wrapExprs _ hbw) wfL_nil
+    | .classDef name bases kws body decos lineno, cx, st, es, st', h, hw => by
+        simp only [wfS] at hw
+        simp only [lowerStmt] at h
+        obtain ⟨inner, hin, h⟩ := bind_ok h
+        obtain ⟨⟨b', st1⟩, hb, h⟩ := bind_ok h
+        obtain ⟨bases', hbs, h⟩ := bind_ok h
+        obtain ⟨⟨metaE, kws'⟩, hk, h⟩ := bind_ok h
+        obtain ⟨create, hc, h⟩ := bind_ok h
+        obtain ⟨self, hs, h⟩ := bind_ok h
+        obtain ⟨self2, hs2, h⟩ := bind_ok h
+        have hbw := lowerBlock_wf body _ _ b' st1 hb hw.2.2.1
+        have hbases := transfList_wfElts cx.nsp [] bases bases' hbs hw.1
+        have hkw := classKeywords_wf cx.nsp kws metaE kws' hk hw.2.1
+        have hcreate : wfE create := by
+          refine getAssign_wf hc ?_
+          simp only [wfE]
+          refine ⟨wfE_getD' hkw.1 (wfE_name _), ?_, hkw.2⟩
+          exact wfElts_cons (wfE_str _) (wfElts_cons (by simp only [wfE]; exact hbases)
+            (wfElts_cons (by simp only [wfE, wfItems]) wfElts_nil))
+        have hload : wfE (Expr.namedExpr (st1.fresh "loader").1 (.lambda Arguments.empty (.subscript (.list
+            ([.namedExpr "__class__" self, .namedExpr inner.dictName (.dict [])] ++ b' ++ [.name inner.dictName])) Expr.neg1))) := by
+          refine wfE_namedExpr _ (wfE_lambda wfA_empty (wfE_subscript (wfE_list ?_) wfE_neg1 (by intro es he; cases he)))
+          exact wfL_append (wfL_append (wfL_cons (wfE_namedExpr _ (getLoad_wf hs))
+            (wfL_cons (wfE_namedExpr _ (by simp only [wfE, wfItems])) wfL_nil)) hbw) (wfL_cons (wfE_name _) wfL_nil)
+        have hfill : wfE (Expr.listComp (.call (.name "setattr") [self2, .name classKey, .name classValue] [])
+            [.mk (.tuple [.name classKey, .name classValue])
+              (.call (.attribute (.call (.name (st1.fresh "loader").1) [] []) "items") [] []) [] false]) := by
+          refine wfE_listCompG (wfE_call (wfE_name _) (wfL_cons (getLoad_wf hs2) (wfL_cons (wfE_name _) (wfL_cons (wfE_name _) wfL_nil))))
+            rfl (by simp only [wfE]; exact wfElts_cons (wfE_name _) (wfElts_cons (wfE_name _) wfElts_nil)) ?_
+          exact wfE_call (wfE_attribute _ (wfE_call (wfE_name _) wfL_nil)) wfL_nil
+        simp only [] at h
+        rcases ite_ok h with h | h
+        · cases pure_ok h
+          exact wfL_cons hcreate (wfL_cons hload (wfL_cons hfill wfL_nil))
+        · obtain ⟨self3, hs3, h⟩ := bind_ok h
+          obtain ⟨decorated, hd, h⟩ := bind_ok h
+          obtain ⟨r, hr, h⟩ := bind_ok h
+          cases pure_ok h
+          exact wfL_cons hcreate (wfL_cons hload (wfL_cons hfill (wfL_cons
+            (getAssign_wf hr (applyDecorators_wf cx.nsp decos _ decorated hd hw.2.2.2 (getLoad_wf hs3))) wfL_nil)))
+    | .other .., cx, st, es, st', h, _ => by simp only [lowerStmt] at h; cases h
+
+  theorem lowerBlock_wf : ∀ (ss : List Stmt) (cx : Ctx) (st : St) (es : List Expr) (st' : St),
+      lowerBlock cx ss st = .ok (es, st') → wfBlock ss → wfL es
+    | [], cx, st, es, st', h, _ => by simp only [lowerBlock] at h; cases h; exact wfL_nil
+    | s :: ss, cx, st, es, st', h, hw => by
+        simp only [wfBlock] at hw
+        simp only [lowerBlock] at h
+        obtain ⟨⟨a, st1⟩, ha, h⟩ := bind_ok h
+        have haw := lowerStmt_wf s cx st a st1 ha hw.1
+        simp only [] at h
+        split at h
+        · cases pure_ok h; exact haw
+        · split at h
+          · obtain ⟨⟨rest, st2⟩, hr, h⟩ := bind_ok h
+            cases pure_ok h
+            exact wfL_append haw (wfL_cons (wfE_guard cx.cfg _ (lowerBlock_wf ss cx st1 rest st2 hr hw.2)) wfL_nil)
+          · obtain ⟨⟨rest, st2⟩, hr, h⟩ := bind_ok h
+            cases pure_ok h
+            exact wfL_append haw (lowerBlock_wf ss cx st1 rest st2 hr hw.2)
+end
+
+
+/-! ### the whole program -/
+
+theorem goModule_wf (cx : Ctx) : ∀ (ss : List Stmt) (st : St) (es : List Expr) (st' : St),
+    lowerFull.goModule cx ss st = .ok (es, st') → wfBlock ss → wfL es
+  | [], st, es, st', h, _ => by simp only [lowerFull.goModule] at h; cases h; exact wfL_nil
+  | s :: ss, st, es, st', h, hw => by
+      simp only [wfBlock] at hw
+      simp only [lowerFull.goModule] at h
+      obtain ⟨⟨a, st1⟩, ha, h⟩ := bind_ok h
+      obtain ⟨⟨b, st2⟩, hb, h⟩ := bind_ok h
+      cases pure_ok h
+      exact wfL_append (lowerStmt_wf s cx st a st1 ha hw.1) (goModule_wf cx ss st1 b st2 hb hw.2)
+
+theorem wfE_importHelper (m : String) : wfE (Expr.namedExpr m (.call (.name "__import__") [Expr.str m] [])) :=
+  wfE_namedExpr _ (wfE_call (wfE_name _) (wfL_cons (wfE_str _) wfL_nil))
+
+/-- **The converted program is a well-formed expression tree** whenever the expressions of the
+    source program are. -/
+theorem lowerFull_wf (cfg : Cfg) (root : SymScope) (body : List Stmt) (e : Expr)
+    (h : lowerFull cfg root body = .ok e) (hw : wfBlock body) : wfE e := by
+  unfold lowerFull at h
+  obtain ⟨⟨g, sup⟩, _, h⟩ := bind_ok h
+  simp only [] at h
+  obtain ⟨⟨b, st⟩, hb, h⟩ := bind_ok h
+  cases pure_ok h
+  have hbw := goModule_wf _ body _ b st hb hw
+  refine wfE_wrapExprs cfg ?_
+  have h1 : wfL (if st.useItertools then Expr.namedExpr "itertools" (.call (.name "__import__") [Expr.str "itertools"] []) :: b else b) := by
+    split
+    · exact wfL_cons (wfE_importHelper _) hbw
+    · exact hbw
+  have h2 : wfL (if st.useImportlib then Expr.namedExpr "importlib" (.call (.name "__import__") [Expr.str "importlib"] []) ::
+      (if st.useItertools then Expr.namedExpr "itertools" (.call (.name "__import__") [Expr.str "itertools"] []) :: b else b)
+      else (if st.useItertools then Expr.namedExpr "itertools" (.call (.name "__import__") [Expr.str "itertools"] []) :: b else b)) := by
+    split
+    · exact wfL_cons (wfE_importHelper _) h1
+    · exact h1
+  split
+  · exact wfL_cons wfE_iterWrapperBody h2
+  · exact h2
 
 end OlVerif
